@@ -153,7 +153,7 @@ let fuel_cap = 400000
 let run_exec (line : string) : string =
   match String.split_on_char '|' line with
   | [maxs; stacks; advs; progs] ->
-      let maxc = z_of_string (String.trim maxs) in
+      let maxc = z_of_string (String.trim (List.hd (String.split_on_char ',' maxs))) in
       let t = { v = Array.of_list (split_ws progs); i = 0 } in
       let prog, hashes = parse_program t in
       let stack = List.map (parse_val hashes) (split_ws stacks) in
@@ -254,7 +254,7 @@ let run_lower (line : string) : string =
 let run_astexec (line : string) : string =
   match String.split_on_char '|' line with
   | [maxs; stacks; advs; asts] ->
-      let maxc = z_of_string (String.trim maxs) in
+      let maxc = z_of_string (String.trim (List.hd (String.split_on_char ',' maxs))) in
       let t = { v = Array.of_list (split_ws asts); i = 0 } in
       let procs, main = parse_ast t in
       let root, codes = compile_program procs main in
